@@ -319,10 +319,10 @@ def parsePl (w : String) : Option Pl :=
     | _ => none
   else none
 
-/-- the argument at word index `i` as it lies in the harness's buffer: `(off + 5*i) mod 16` foreign bytes before it
+/-- the argument at word index `i` as it lies in the harness's buffer: `(off + 5*(i-1)) mod 16` foreign bytes before it
     (the address of the first byte modulo 16), `spare` bytes of capacity and 16 more foreign bytes behind -/
 def placeArg (pl : Pl) (i : Nat) (key : List UInt8) : Murmur.Placed.Slice :=
-  Murmur.Placed.place (List.replicate ((pl.off + 5*i) % 16) pl.fill) key (List.replicate (pl.spare + 16) pl.fill) pl.spare
+  Murmur.Placed.place (List.replicate ((pl.off + 5*(i-1)) % 16) pl.fill) key (List.replicate (pl.spare + 16) pl.fill) pl.spare
 
 def placeArgs (pl : Pl) : Nat → List (List UInt8) → List Murmur.Placed.Slice
   | _, [] => []
